@@ -190,6 +190,13 @@ def par_live(ctx, obs, prefixes: Sequence[str], rule='PAR-live') -> int:
             continue
         stub = _is_stub(f.node)
         fam = None
+        # a private module-level function that is not in the frozen table of the pinned tree is a helper introduced by a later
+        # change (extraction, uniform signatures for a dispatch table): its parameters are implementation details of its callers
+        from ..inline import frozen_functions
+        modname = q.rsplit('.', 1)[0]
+        if f.cls is None and f.parent is None and f.name.startswith('_') and modname in frozen_functions() \
+                and f.name not in frozen_functions()[modname]:
+            continue
         for p in f.params:
             if p in ('self', 'cls') or p.startswith('_'):
                 continue
